@@ -70,7 +70,7 @@ def run_case(case, workdir=None):
     os.makedirs(workdir, exist_ok=True)
     k = case["kind"]
     if k in ("lex", "spans", "pipeline"):
-        path = os.path.join(workdir, "case_input.mamba")
+        path = os.path.join(workdir, "case_input_%d.mamba" % os.getpid())
         with open(path, "w", newline="") as f:
             f.write(case["input"])
         if k == "pipeline":
